@@ -154,8 +154,15 @@ def run(ctx):
     passed = [c for c in ast.walk(vr.node) if isinstance(c, ast.Call) and isinstance(c.func, ast.Name) and c.func.id == "_validate"]
     ok = len(passed) == 1 and any(k.arg == "datum" and norm(k.value) == "datum.get(f['name'], f.get('default', NoValue))" for k in passed[0].keywords)
     ctx.check("C10.R4", "_validate_record: an absent field is validated as its default, else as NoValue", ok, vr.where(), f"_validate_record: value passed = {[norm(k.value) for c in passed for k in c.keywords if k.arg == 'datum']}", "absent fields must validate through their default, and be distinguishable (NoValue) when there is none")
-    nov = [n for n in walk_local(vf.node) if isinstance(n, ast.If) and norm(n.test) == "datum is NoValue"]
-    ok = any(any(norm(s) == "datum = None" for s in n.body) for n in nov)
+    Dp, Sp = vf.pos_params[0], vf.pos_params[1]
+    nov = [s for s in summaries(cfg_of(vf)) if s.kind == "return" and f"{Dp} is NoValue" in s.facts and (s.text.startswith("VALIDATORS") or s.text.startswith("_validate("))]
+    def _first_arg(t):
+        try:
+            c = ast.parse(t, mode="eval").body
+            return norm(c.args[0]) if isinstance(c, ast.Call) and c.args else None
+        except SyntaxError:
+            return None
+    ok = bool(nov) and all((_first_arg(s.text) == "None") or ((_first_arg(s.text) or "").endswith(f"(None, {Sp})")) for s in nov)
     ctx.check("C10.R4", "_validate: not strict and no default -> validated as None (accepted iff the type accepts null)", ok, vf.where(), "_validate: NoValue -> None", "outside strict mode a missing field without default must be accepted exactly when its type accepts null")
 
     # ---- R5 escape census -----------------------------------------------------------------------------
